@@ -164,6 +164,7 @@ def run(ctx):
         from ..rules import dlrules
         nv = dlrules.verdict_gates(ck, prog, config, 'C15-d', (('validate_chunk', None, None),))
         ck.min_instances('positive-verdict exits of validate_chunk', nv, 1)
+        dlrules.digest_intact(ck, prog, config, 'C15-d', ('validate_chunk',))
         for e in ends:
             unit_decoding = bool(reaches(prog, e, ('comp_add_to_dc',)))
             d = decs.get(e.unit)
